@@ -42,6 +42,22 @@ NEW = [
      'def f(a, b=[], *args, c={}, **kw):\n    return a, b, c\n\n\nclass K:\n    def m(self, x=[], y=None):\n        y = y or []\n        return x, y\n'),
     ("pixee:python/literal-or-new-object-identity",
      'def f(l):\n    return l is [1, 2, 3] or l is not {} or l is {1}\n'),
+    # round 7: the construct nested inside itself / a name already imported another way
+    ("pixee:python/use-set-literal", 'x = set([len(set([a, b])), 2])\n'),
+    ("pixee:python/timezone-aware-datetime",
+     'from datetime import datetime\n\n\ndef f():\n    return datetime.utcfromtimestamp(datetime.utcnow().timestamp())\n'),
+    ("pixee:python/fix-async-task-instantiation",
+     'import asyncio\n\n\nasync def main(c, wrap):\n    t = asyncio.Task(wrap(asyncio.Task(c())))\n    await t\n'),
+    ("pixee:python/fix-assert-tuple", 'def test(a, b, c):\n    assert ((a, b), c)\n'),
+    ("pixee:python/disable-graphql-introspection",
+     'from graphql import NoSchemaIntrospectionCustomRule\nfrom graphql_server.flask import GraphQLView\nfrom .schemas import schema\n\n'
+     'safe = GraphQLView(name="safe", schema=schema, validation_rules=[NoSchemaIntrospectionCustomRule])\nview = GraphQLView(name="api", schema=schema)\n'),
+    ("pixee:python/use-defusedxml",
+     'import xml.etree.ElementTree as ET\n\n\ndef f(p):\n    return ET.fromstring(ET.tostring(ET.parse(p).getroot()))\n'),
+    ("pixee:python/harden-pickle-load",
+     'import pickle\n\n\ndef f(f1):\n    return pickle.load(open(pickle.load(f1), "rb"))\n'),
+    ("pixee:python/flask-json-response-type",
+     'from flask import Flask\nimport json\n\napp = Flask(__name__)\n\n\n@app.route("/x")\ndef x(uid):\n    return json.dumps({"a": 1}), 200, {"X-Request-Id": uid}\n'),
     ("pixee:python/remove-debug-breakpoint",
      'import pdb\n\n\ndef f():\n    breakpoint()\n    pdb.set_trace()\n    x = 1; breakpoint()\n    return x\n'),
 ]
